@@ -162,12 +162,23 @@ class Ctx:
         reported = set()
         # 1. oracle hits (real failing inputs)
         pre_seen = set()
-        for hit in self.oracle_hits[:500]:
+        known_sigs = set(k.get("signature") for k in known if k.get("kind") == "known" and k.get("property") == self.pid)
+
+        def _pre(hit):
+            return prop.signature(hit["case"], hit["detail"]) if hasattr(prop, "signature") else digest([hit["case"], hit["detail"]])
+
+        # hits whose (pre-shrink) signature is not a recorded known finding come first and are never
+        # crowded out by known ones: known signatures do not count against the cap of six
+        hits = [(h, _pre(h)) for h in self.oracle_hits[:20000]]
+        hits.sort(key=lambda hp: hp[1] in known_sigs)
+        n_new = 0
+        for hit, pre in hits:
             case, detail = hit["case"], hit["detail"]
-            pre = prop.signature(case, detail) if hasattr(prop, "signature") else digest([case, detail])
-            if pre in pre_seen or len(pre_seen) >= 6:
-                continue  # one representative per (pre-shrink) signature, at most six
+            if pre in pre_seen or (pre not in known_sigs and n_new >= 6):
+                continue  # one representative per (pre-shrink) signature, at most six unknown ones
             pre_seen.add(pre)
+            if pre not in known_sigs:
+                n_new += 1
             if hasattr(prop, "shrink"):
                 try:
                     case, detail = prop.shrink(self, case, detail)
